@@ -44,6 +44,17 @@ def make_files(h, wd, rng):
         fn = os.path.join(wd, f"{stem}.mseed")
         Stream(trs).write(fn, format="MSEED")
         names[stem] = f"{stem}.mseed"
+    # a file whose second window has identical channels (a flat H/V curve without a peak)
+    fs, n = 100.0, int(365 * 100.0)          # three 120-s windows: two ordinary ones and the flat one in the middle
+    t = np.arange(n) / fs
+    same = rng.normal(size=n).astype(np.float32)
+    trs = []
+    for ch in ("BHN", "BHE", "BHZ"):
+        x = (np.sin(2 * np.pi * 2.0 * t + rng.uniform(0, 6)) * (2.0 if ch != "BHZ" else 1.0) + rng.normal(size=n)).astype(np.float32)
+        x[12000:24001] = same[12000:24001]
+        trs.append(Trace(x, header=dict(sampling_rate=fs, channel=ch, station="VRF", network="XX", starttime=UTCDateTime(2020, 1, 1))))
+    Stream(trs).write(os.path.join(wd, "flat1.mseed"), format="MSEED")
+    names["flat1"] = "flat1.mseed"
     # two SAF files (text format with optional header keywords): saf1 carries NORTH_ROT = 30, saf2 has no NORTH_ROT line at all
     for stem, north_rot in (("saf1", 30), ("saf2", None)):
         fs, n = 100.0, 24500
@@ -245,6 +256,33 @@ def main():
                               dict(kind="cli", files=files, nproc=nproc, file=f))
         run.case((files, nproc) if risky((files, nproc)) else None,
                  sample=dict(files=list(files), nproc=nproc, hook_events=runs[-1]["ev"]) if len(run.samples) < 3 else None)
+    # ---- one batch WITH figure creation (the default of the command line): drawing the figure must not change what is written.
+    #      flat1 has a window in which the three channels carry the same signal (H/V flat at 1: a window without a peak)
+    fig_files = ("flat1", "small1")
+    refs.prefetch([refs.key(f, "pro.json", ("lognormal", "lognormal")) for f in fig_files], names)
+    for f in fig_files:
+        for ext in ("csv", "png"):
+            try:
+                os.remove(os.path.join(wd, f"{f}.{ext}"))
+            except FileNotFoundError:
+                pass
+    env.pop("HVSRPY_VERIF_TRACE", None)
+    cmd = [sys.executable, "-c", "from hvsrpy.cli import cli; cli()", "--nproc", "1", "--preprocessing_settings_file", "pre.json",
+           "--processing_settings_file", "pro.json"] + [names[f] for f in fig_files]
+    p = subprocess.run(cmd, cwd=wd, env=env, stdout=subprocess.PIPE, stderr=subprocess.STDOUT, text=True, timeout=900)
+    if p.returncode != 0:
+        run.violation("cli:failed:with-figure", f"hvsrpy CLI (figures on) exited with {p.returncode}: {p.stdout[-400:]}", dict(kind="cli-fig"))
+    else:
+        for f in fig_files:
+            out = os.path.join(wd, f"{f}.csv")
+            ref = refs.get(f, "pro.json", ("lognormal", "lognormal"))
+            if not os.path.exists(out):
+                run.violation("cli:missing-output:with-figure", f"figures on: {f}.csv was not written", dict(kind="cli-fig", file=f))
+            elif ref[0] != "error" and open(out, "rb").read() != ref[0]:
+                run.violation("cli:output-differs:with-figure", f"figures on (no --no_figure), files {list(fig_files)}, --nproc 1: {f}.csv differs from the library "
+                              f"pipeline run on that file alone", dict(kind="cli-fig", file=f))
+        run.case(("with-figure",))
+    run.notes["cli_runs_with_figure"] = 1
     # ---- code -> spec: the recorded schedules against Cli (property tier) ------------------------------
     if runs:
         acc, tres = heaplog.validate("TraceCli", runs, "trace-C19", timeout=900)
